@@ -355,7 +355,12 @@ class Gen:
                 rs = [s for s in cmds if s["rsp"]]
                 if rs:
                     s = r.choice(rs)
-                    s["rsp_content"] += " x%d" % r.randint(0, 99)
+                    toks = s["rsp_content"].split(" ")
+                    if len(toks) > 1 and r.random() < 0.45:
+                        # the content gets shorter: what is left is the beginning of what was there (a flag or the last names dropped)
+                        s["rsp_content"] = " ".join(toks[:-1])
+                    else:
+                        s["rsp_content"] += " x%d" % r.randint(0, 99)
                     from .simlib import manifest_step
                     return [manifest_step(sc)], ("rsp", s["id"])
             if k == "rmlog":
